@@ -218,7 +218,19 @@ func genC14(kind string, seed int64) *c14Case {
 						victims = append(victims, tl[v])
 					}
 					i := v + 1 + rng.Intn(len(tl)-v-1)
+					if rng.Intn(2) == 0 {
+						i = v + 1 // the splitter directly behind the entry it overlaps
+					}
 					tl = append(tl[:i:i], append([]string{sp}, tl[i:]...)...)
+					if rng.Intn(2) == 0 {
+						// New entries of the block's own action directly in
+						// front of the overlapped entry: on the device that
+						// entry then lies a few lines behind the place where
+						// the whole run is inserted.
+						for k := 1 + rng.Intn(3); k > 0; k-- {
+							tl = append(tl[:v:v], append([]string{narrow(x)}, tl[v:]...)...)
+						}
+					}
 				}
 				last := a.Lines[len(a.Lines)-1]
 				tl = mcisco.DedupLines(append(tl, last), kind == "ios")
@@ -232,7 +244,11 @@ func genC14(kind string, seed int64) *c14Case {
 					if rng.Intn(5) < 3 {
 						for i, l := range dl {
 							if l == v && i < len(dl)-2 {
-								move(i, i+1+rng.Intn(len(dl)-2-i))
+								j := i + 1 + rng.Intn(len(dl)-2-i)
+								if rng.Intn(2) == 0 {
+									j = i + 1 + rng.Intn(min(2, len(dl)-2-i)) // only a line or two
+								}
+								move(i, j)
 								break
 							}
 						}
